@@ -39,6 +39,13 @@ func corpusCached() []Case {
 			files: map[string]string{"/f0": "hello"}, warm: []act{{kind: "LOOKUP", name: "f0"}}, wwarm: []act{{kind: "LOOKUP", name: "f0"}},
 			reader: act{kind: "GETATTR", name: "f0"}, writer: act{kind: "WRITE", name: "f0", off: 3, data: []byte("LOWORLD")},
 			rule: &rule{op: "Lstat", path: "/f0", nth: 1}},
+		// the path is NOT cached when the writer invalidates it (CREATE UNCHECKED with a size over an existing file
+		// truncates by path, without reading attributes through the cache first): the reader's fill must still be refused
+		{name: "lookup-vs-create-truncate (attribute cache, nothing cached for the path at invalidation time)",
+			cfg:   cfg29{AttrTTL: long, NegTTL: long, DirTTL: long},
+			files: map[string]string{"/f0": "hello"},
+			reader: act{kind: "LOOKUP", name: "f0"}, writer: act{kind: "CREATE", name: "f0", how: 0, size: u64p(0)},
+			rule: &rule{op: "Lstat", path: "/f0", nth: 1}},
 		{name: "readdirplus-vs-rename (attribute cache, entry of a listing)", cfg: cfg29{AttrTTL: long, NegTTL: long, DirTTL: long},
 			files: map[string]string{"/f0": "hello"}, reader: act{kind: "READDIRPLUS"}, writer: act{kind: "RENAME", name: "f0", name2: "f1"},
 			rule: &rule{op: "Lstat", path: "/f0", nth: 1}},
